@@ -397,6 +397,17 @@ func (g *Gen) InjectUnknown(md protoreflect.MessageDescriptor, b []byte, depth i
 	var out [][]byte
 	for _, r := range rs {
 		fd := md.Fields().ByNumber(r.num)
+		if fd != nil && fd.IsMap() && r.typ == protowire.BytesType && g.R.Intn(100) < 30 {
+			// a record that is neither key nor value INSIDE the entry: it belongs to the synthetic
+			// entry message, every decoder drops it -- it must not surface in the parent's unknown set
+			var u []byte
+			u = protowire.AppendTag(u, protowire.Number(3+g.R.Intn(40)), protowire.VarintType)
+			u = protowire.AppendVarint(u, g.u64())
+			pos := []int{0, len(r.val)}[g.R.Intn(2)]
+			entry := append(append(append([]byte(nil), r.val[:pos]...), u...), r.val[pos:]...)
+			out = append(out, g.bytesRec(r.num, entry).raw)
+			continue
+		}
 		if fd != nil && r.typ == protowire.BytesType && depth < 3 && g.R.Intn(100) < 70 {
 			switch {
 			case fd.IsMap() && fd.MapValue().Message() != nil:
